@@ -27,6 +27,7 @@ func checkC10(c *Ctx) {
 	c.Rule("C10/R6", "tables ready: every package-level table read on the way from Scale, CommonScale or ClassOf is filled by the package initialiser, or every path to the read passes a call that fills it")
 	c.Rule("C10/R5", "unit class: ClassOf returns Binary exactly when a numerator token equals B, MB or bytes")
 
+	c.Rule("C10/R9", "scaling and formatting leave nothing behind: no function of benchunit writes package-level state (lazily built tables behind sync.Once apart) or uses it as scratch space, and none writes through a slice it was handed (no store into, append onto or sort of a parameter slice or a reslice of it)")
 	c.Rule("C10/R8", "numerator and denominator in the unit tokenizer (same rule as C04/R3): the Binary classification looks at numerator tokens only; '*' clears and '/' sets the denominator flag, and nothing else touches it")
 	c.Rule("C10/R7", "unit class over characters, not bytes (same rule as C04/R8): no unicode predicate in benchunit is applied to a lone byte widened to a rune")
 	p := mustLoad(c, loadOpts{}, "./benchunit")
@@ -38,6 +39,7 @@ func checkC10(c *Ctx) {
 	c10TablesReady(c, p)
 	byteRuneRule(c, p, "C10/R7", "benchunit")
 	c.Under("C04/R3", "C10/R8", func() { c04R3(c, p) })
+	c10Pure(c, p)
 }
 
 // c10TablesReady (C10/R6): every package-level table read on the way from Scale/CommonScale is either filled by the package
@@ -1166,4 +1168,56 @@ func mapGlobalName(v ssa.Value) string {
 		}
 	}
 	return ""
+}
+
+// c10Pure (C10/R9): see the rule text. The first half is C15/R11's rule over benchunit's own functions; the second half
+// is about the arguments: CommonScale(vals) is handed the very row the caller goes on to format.
+func c10Pure(c *Ctx, p *Prog) {
+	const R = "C10/R9"
+	reach := map[*ssa.Function]bool{}
+	for _, fn := range p.Funcs("benchunit") {
+		reach[fn] = true
+	}
+	globalsRule(c, p, R, reach, 10)
+	n := 0
+	for _, fn := range p.Funcs("benchunit") {
+		if fn.Parent() != nil {
+			continue
+		}
+		var roots []ssa.Value
+		for _, prm := range fn.Params {
+			if _, ok := prm.Type().Underlying().(*types.Slice); ok {
+				roots = append(roots, prm)
+			}
+		}
+		if len(roots) == 0 {
+			continue
+		}
+		n++
+		ins, what := writesThrough(fn, roots)
+		for i, in := range ins {
+			c.Bad(R, fmt.Sprintf("%s:writes-argument#%d", fnName(fn), i+1), p.pos(in.Pos()), "the function "+what[i]+" the slice it was handed (or a reslice of it, which shares its backing array): the caller's values are overwritten — a row is scaled by CommonScale(row) and then formatted value by value, so the printed mantissas no longer belong to the row's values")
+		}
+	}
+	// both matchers must still fire on their stored examples
+	ctl := mustLoad(c, loadOpts{dir: c.HomeDir + "/checker"}, "./testdata/lookbehind")
+	nW, nS := 0, 0
+	for _, fn := range ctl.Funcs("perfcheck/testdata/lookbehind") {
+		var roots []ssa.Value
+		for _, prm := range fn.Params {
+			if _, ok := prm.Type().Underlying().(*types.Slice); ok {
+				roots = append(roots, prm)
+			}
+		}
+		ins, _ := writesThrough(fn, roots)
+		nW += len(ins)
+		ins2, _, _ := scratchGlobals(fn, func(g *ssa.Global) bool { return true }, func(f *types.Func) bool { return true })
+		nS += len(ins2)
+	}
+	if nW == 0 || nS == 0 {
+		c.Undecided(R, "positive-control", "", fmt.Sprintf("a matcher no longer recognises its own positive example (argument writes found: %d, scratch uses found: %d)", nW, nS))
+	} else {
+		c.OK(R, "positive-control", "checker/testdata/lookbehind/lb.go", "matchers fire on the stored in-place compaction of an argument and on the stored package-level scratch buffer")
+	}
+	c.Floor(R, "benchunit functions taking a slice", n, 1)
 }
